@@ -1,11 +1,77 @@
-//! C02 — not built yet.
+//! C02 — point lookups for every probe: raw Fst::get / contains_key, Map::get / contains_key, Set::contains.
 use crate::common::*;
+use crate::core::*;
+use fst::raw::Fst;
+
 pub struct P;
-impl Prop for P {
-    fn generate(&self, _tier: Tier, _rng: &mut Rng, _stats: &mut Stats) -> Vec<String> {
-        vec![]
+
+pub fn standard_keysets(tier: Tier, rng: &mut Rng, stats: &mut Stats, nrand: usize) -> Vec<Vec<Vec<u8>>> {
+    let mut sets = vec![];
+    for alpha in [&[b'a', b'b'][..], &[0x00, 0xFF][..]] {
+        let u = universe(alpha, 2);
+        for ks in subsets(&u) {
+            sets.push(ks);
+            stats.bump("small_scope_keysets");
+        }
     }
-    fn execute(&self, _case: &str) -> String {
-        String::new()
+    for (name, ks) in boundary_keysets(rng, tier) {
+        if ks.len() <= 300 && ks.iter().all(|k| k.len() <= 300) {
+            stats.bump(&format!("boundary_{}", name.split('_').next().unwrap()));
+            sets.push(ks);
+        }
+    }
+    for _ in 0..nrand {
+        let maxk = if rng.chance(1, 10) { 200 } else { 25 };
+        sets.push(random_keyset(rng, maxk, 8));
+        stats.bump("random_keysets");
+    }
+    sets
+}
+
+impl Prop for P {
+    fn generate(&self, tier: Tier, rng: &mut Rng, stats: &mut Stats) -> Vec<String> {
+        let nrand = match tier { Tier::Quick => 150, Tier::Thorough => 3000, Tier::Wide => 600 };
+        let mut cases = vec![];
+        for ks in standard_keysets(tier, rng, stats, nrand) {
+            let p = rng.below(NPATTERNS as u64) as usize;
+            let vals = value_pattern(p, ks.len(), rng);
+            let ops = if p == 0 { set_ops(&ks) } else { map_ops(&with_values(&ks, &vals)) };
+            let big_fan = ks.len() >= 30;
+            let probes = probes_for(&ks, rng, !big_fan && ks.len() <= 8);
+            stats.add("probes", probes.len() as u64);
+            for chunk in probes.chunks(400) {
+                cases.push(format!("get {} ; {}", fmt_ops(&ops), chunk.iter().map(|p| hex(p)).collect::<Vec<_>>().join(" ")));
+            }
+        }
+        cases
+    }
+    fn nontrivial(&self, case: &str) -> bool {
+        case.contains(',')
+    }
+    fn execute(&self, case: &str) -> String {
+        let rest = &case["get ".len()..];
+        let mut it = rest.split(';');
+        let ops = parse_ops(it.next().unwrap().trim());
+        let probes: Vec<Vec<u8>> = it.next().unwrap().trim().split(' ').filter(|s| !s.is_empty()).map(unhex).collect();
+        let is_set = ops.iter().all(|o| matches!(o, Op::Add(..)));
+        let out = exec_build("extend", "raw_loop", 0, 10_000, 2, &ops);
+        let bytes = out.bytes.unwrap();
+        let f = Fst::new(bytes.clone()).unwrap();
+        let map = fst::Map::new(bytes.clone()).unwrap();
+        let set = fst::Set::new(bytes.clone()).unwrap();
+        let borrowed = Fst::new(&bytes[..]).unwrap();
+        let mut x = String::from("ok");
+        let mut res = vec![];
+        for p in &probes {
+            let g = f.get(p).map(|o| o.value());
+            let c = f.contains_key(p);
+            if map.get(p) != g || map.contains_key(p) != c || set.contains(p) != c || borrowed.get(p).map(|o| o.value()) != g {
+                x = format!("Map/Set/borrowed wrappers disagree with raw Fst on probe {}", hex(p));
+            }
+            let _ = is_set;
+            res.push(format!("{}/{}", g.map(|v| v.to_string()).unwrap_or("~".into()), c as u8));
+        }
+        let s = res.join(",");
+        format!("S:{}\tM:{}\tX:{}", s, s, x)
     }
 }
